@@ -97,7 +97,12 @@ func search(host Plat, l []Plat) (int, bool) {
 
 // runCase executes one case on the implementation: returns the Coq term (or "" when the case has
 // no model counterpart) and appends oracle failures.
-func runCase(c Case, res *lib.Result) string {
+func runCase(c Case, res *lib.Result) (ret string) {
+	defer res.Recover(c)
+	return runCaseRaw(c, res)
+}
+
+func runCaseRaw(c Case, res *lib.Result) string {
 	switch c.Kind {
 	case "search":
 		idx, found := search(c.Host, c.List)
